@@ -229,7 +229,7 @@ impl<'e> Filler for RandFiller<'e> {
 
     fn fill(&mut self, kind: SlotKind, id: SlotId, canon: &str, _depth: usize) -> String {
         self.cur_slot = id.to_string();
-        self.comments_allowed = id != "interp-open"
+        self.comments_allowed = true
             && !self.cfg.no_comment_slots.iter().any(|s| s == id)
             && (self.cfg.only_comment_slots.is_empty() || self.cfg.only_comment_slots.iter().any(|s| s == id));
         let vary = self.e.below(100) < self.cfg.vary;
